@@ -18,6 +18,11 @@ def run(rep, tier, seed):
     ]
     run_contracts(rep, "contracts.client", tier, seed)
     history_lemmas(rep)
+    # concurrency, what a syntactic census can say: no function of the client module shares an object between its calls
+    # (module-level rebinding, memo decorators, objects built once as default arguments) - two threads would share it too
+    import os
+    from props.census import run_census_of
+    run_census_of(rep, os.environ.get("VERIF_REPO", "/repo"), ["ofxtools/Client.py"])
     run_contracts(rep, "contracts.client_history", tier, seed)
     replay_known_findings(rep)
 
